@@ -25,42 +25,53 @@ theorem known_size_exactly_once (s : KSrc) (progs : Nat → List SOp) (hp : ∀ 
 /-- **Wrapper over an arbitrary iterator, no duplicate**: in every reachable configuration (every fused
 wrapped iterator, all request programs with chunk sizes ≥ 1 — single, one-shot chunk, buffered, looping —
 every schedule) the positions inside the outputs of one thread are strictly increasing from output to output … -/
-theorem iter_thread_outputs_increasing (s : IW.Script) (hf : IW.Fused s) (ps : Nat → List IW.Req)
+theorem iter_thread_outputs_increasing (s : IW.Script) (ps : Nat → List IW.Req)
     (hok : ∀ t, ∀ r ∈ ps t, IW.ReqOk r) (σ : List Nat) (hW : (IW.run s σ (IW.init ps)).R < W) (t : Nat) :
     ((IW.run s σ (IW.init ps)).th t).outs.Pairwise fun a b => ∀ p ∈ a.pos, ∀ q ∈ b.pos, p < q :=
-  (IW.oinv_run hf σ (IW.inv_init s ps hok) (IW.oinv_init s ps) hW).sorted t
+  (IW.oinv_run σ (IW.inv_init s ps hok) (IW.oinv_init s ps) hW).sorted t
 
 /-- … and no position is handed to two different threads. -/
-theorem iter_no_position_twice (s : IW.Script) (hf : IW.Fused s) (ps : Nat → List IW.Req)
+theorem iter_no_position_twice (s : IW.Script) (ps : Nat → List IW.Req)
     (hok : ∀ t, ∀ r ∈ ps t, IW.ReqOk r) (σ : List Nat) (hW : (IW.run s σ (IW.init ps)).R < W)
     (t u : Nat) (htu : t ≠ u) (o o' : IW.POut)
     (ho : o ∈ ((IW.run s σ (IW.init ps)).th t).outs) (ho' : o' ∈ ((IW.run s σ (IW.init ps)).th u).outs)
     (p : Nat) (hp : p ∈ o.pos) (hq : p ∈ o'.pos) : False :=
-  (IW.oinv_run hf σ (IW.inv_init s ps hok) (IW.oinv_init s ps) hW).disj t u htu o ho o' ho' p hp p hq rfl
+  (IW.oinv_run σ (IW.inv_init s ps hok) (IW.oinv_init s ps) hW).disj t u htu o ho o' ho' p hp p hq rfl
 
 /-- positions inside one chunk are distinct as well -/
 theorem iter_chunk_positions_nodup (o : IW.POut) : o.pos.Nodup := by
   cases o <;> simp [IW.POut.pos, List.nodup_range']
 
 /-- every handed-out position has been published: it lies below the yielded counter -/
-theorem iter_delivered_below_yielded (s : IW.Script) (hf : IW.Fused s) (ps : Nat → List IW.Req)
+theorem iter_delivered_below_yielded (s : IW.Script) (ps : Nat → List IW.Req)
     (hok : ∀ t, ∀ r ∈ ps t, IW.ReqOk r) (σ : List Nat) (hW : (IW.run s σ (IW.init ps)).R < W)
     (t : Nat) (o : IW.POut) (ho : o ∈ ((IW.run s σ (IW.init ps)).th t).outs) (p : Nat) (hp : p ∈ o.pos) :
     p < (IW.run s σ (IW.init ps)).Y :=
-  (IW.oinv_run hf σ (IW.inv_init s ps hok) (IW.oinv_init s ps) hW).belowY t o ho p hp
+  (IW.oinv_run σ (IW.inv_init s ps hok) (IW.oinv_init s ps) hW).belowY t o ho p hp
 
-/-- **Wrapper, exactly once (no loss, nothing extra).** For every fused, non-panicking wrapped iterator, all
-request programs (single, one-shot chunk, buffered, looping; chunk sizes ≥ 1; no skip) and every interleaving:
-once no thread is inside the critical section and some thread has observed the end, a position has been
-delivered **iff** the wrapped iterator produced an element at it. Together with the two no-duplicate theorems
-above: every position of the source sequence is delivered to exactly one caller. -/
-theorem iter_exactly_once (s : IW.Script) (hf : IW.Fused s) (hnp : IW.NoPanic s) (ps : Nat → List IW.Req)
+/-- **Wrapper, exactly once (no loss, nothing extra) — for every wrapped iterator, fused or not.** For every
+non-panicking wrapped iterator, all request programs (single, one-shot chunk, buffered, looping; chunk sizes ≥ 1;
+no skip) and every interleaving: once no thread is inside the critical section and some thread has observed the
+end, a position has been delivered **iff** the wrapped iterator filled it before it ended (every call up to and
+including that position returned an element). Together with the two no-duplicate theorems above: every position
+of the source sequence is delivered to exactly one caller. -/
+theorem iter_exactly_once (s : IW.Script) (hnp : IW.NoPanic s) (ps : Nat → List IW.Req)
     (hok : ∀ t, ∀ r ∈ ps t, IW.ReqOk r) (hns : ∀ t, ∀ r ∈ ps t, r ≠ .skip) (σ : List Nat)
     (hW : (IW.run s σ (IW.init ps)).R < W)
     (hquiet : ∀ t, ((IW.run s σ (IW.init ps)).th t).pc.inCS = false)
     (hend : ∃ t, IW.POut.fin ∈ ((IW.run s σ (IW.init ps)).th t).outs) (p : Nat) :
-    IW.Delivered (IW.run s σ (IW.init ps)) p ↔ IW.IsSome (s p) :=
-  IW.exactly_once s hf hnp ps hok hns σ hW hquiet hend p
+    IW.Delivered (IW.run s σ (IW.init ps)) p ↔ IW.NoNoneBefore s (p + 1) :=
+  IW.exactly_once s hnp ps hok hns σ hW hquiet hend p
+
+/-- for a fused iterator this reads: delivered iff the wrapped iterator has an element at that position -/
+theorem iter_exactly_once_fused (s : IW.Script) (hf : IW.Fused s) (hnp : IW.NoPanic s) (ps : Nat → List IW.Req)
+    (hok : ∀ t, ∀ r ∈ ps t, IW.ReqOk r) (hns : ∀ t, ∀ r ∈ ps t, r ≠ .skip) (σ : List Nat)
+    (hW : (IW.run s σ (IW.init ps)).R < W)
+    (hquiet : ∀ t, ((IW.run s σ (IW.init ps)).th t).pc.inCS = false)
+    (hend : ∃ t, IW.POut.fin ∈ ((IW.run s σ (IW.init ps)).th t).outs) (p : Nat) :
+    IW.Delivered (IW.run s σ (IW.init ps)) p ↔ IW.IsSome (s p) := by
+  rw [IW.exactly_once s hnp ps hok hns σ hW hquiet hend p]
+  exact IW.filled_iff_isSome hf p
 
 -- non-vacuity: a 3-thread mixed program satisfies the hypotheses
 def exPs : Nat → List IW.Req
